@@ -485,6 +485,9 @@ def spec_bytes(spec):
 
 
 def attempt_bytes(beh):
+    if beh.get("terminated"):   # never reaches its normal end: writes `term_*` when SIGTERM arrives
+        return (spec_bytes(beh.get("stdout")) + spec_bytes(beh.get("term_stdout")),
+                spec_bytes(beh.get("stderr")) + spec_bytes(beh.get("term_stderr")))
     return (spec_bytes(beh.get("stdout")) + spec_bytes(beh.get("final_stdout")),
             spec_bytes(beh.get("stderr")) + spec_bytes(beh.get("final_stderr")))
 
@@ -507,7 +510,7 @@ def textual(beh, keys):
     return True
 
 
-OUT_KEYS, ERR_KEYS = ("stdout", "final_stdout"), ("stderr", "final_stderr")
+OUT_KEYS, ERR_KEYS = ("stdout", "final_stdout", "term_stdout"), ("stderr", "final_stderr", "term_stderr")
 
 
 def gen_stream(r, kind, big_ok=True):
@@ -654,6 +657,18 @@ def fixed_runs(start):
     return runs
 
 
+def terminate_run(idx):
+    """a test that is terminated for a timeout and, on SIGTERM, still writes more than a pipe holds
+    before it exits: the loop waiting out the grace period (terminate_child) must keep reading"""
+    run = fixed_run(idx, "terminate", {"slowpoke": [{
+        "stdout": {"seed": 77, "size": 5000}, "stderr": hx(b"started\n"), "sleep": 60, "on_term": "exit",
+        "term_stdout": {"seed": 78, "size": 300000, "mode": "bursts", "burst": 50000},
+        "term_stderr": {"seed": 79, "size": 70000}, "terminated": True, "term_exit": 1}]}, flavour="mixed")
+    run["config"] = run["config"].replace("fail-fast = false\n", "fail-fast = false\n"
+                                          'slow-timeout = { period = "1s", terminate-after = 1, grace-period = "20s" }\n')
+    return run
+
+
 LEAK_X = b"before-exit\n"
 
 
@@ -749,6 +764,13 @@ def oracle_run(run, res):
         for st in sts:
             k = st["attempt"]
             beh = atts[min(k, len(atts)) - 1]
+            if beh.get("terminated") and not any(
+                    rec.get("ev") == "end" and rec.get("test") == name and rec.get("attempt") == k
+                    and str(rec.get("how", "")).startswith("exit-on-signal") for rec in res["log"]):
+                # the process died before its handler ran to the end (overloaded machine): what it
+                # wrote is unknown, nothing to compare
+                cnt["inconclusive"] = cnt.get("inconclusive", 0) + 1
+                continue
             out, err = attempt_bytes(beh)
             o = st["output"]
             cnt["attempts"] = cnt.get("attempts", 0) + 1
@@ -939,6 +961,7 @@ def run(tier, seed):
         return chk.finish(gate, checker, [])
     runs = fixed_runs(0)
     runs.append(leak_run(len(runs)))
+    runs.append(terminate_run(len(runs)))
     plan = (["mixed"] * 5 + ["text"] * 5 + ["colour"] * 2 + ["combined"] * 2 + ["big"] * 1) if not thorough else \
            (["mixed"] * 50 + ["text"] * 60 + ["colour"] * 25 + ["combined"] * 25 + ["big"] * 12)
     for fl in plan:
